@@ -1,5 +1,6 @@
 import RustCcModel.Proofs.CtlSimp
 import RustCcModel.Proofs.BytesInv
+import RustCcModel.Proofs.LifeHist
 /-! # C03 — each value is dropped at most once; each allocation is freed exactly once
 
 Step-level facts about the three places that release a box (`Cc::drop` of the last owner, the free loop
@@ -82,5 +83,64 @@ theorem no_pointer_to_freed (c : Cfg) (nH nW nK : Nat) (w : World) (h : Reachabl
   have := (ha.inv.oi.dead x hd).1
   have e : (w.cores x).rc = (w.heap x).rc := rfl
   omega
+
+/-! ## Values: destroyed at most once, only while alive (histories in which no panic has been unwound)
+
+`HistR c nH nW nK w log`: `w` is reached by steps of the running machine only and `log` is everything emitted since the
+start (`Proofs/LifeHist.lean`). `vEv log` is the sub-sequence of its `drop` (`(true, x)`) and `finalize` (`(false, x)`)
+events. After a caught panic these statements are not proved (they need the isolation invariant of DESIGN.md §10); the
+allocator / canary oracles check them on every run. -/
+
+/-- **`drop_in_place` runs only on an intact value in an allocated box**: whenever a step emits `drop x`, object `x` held a live
+value in a live box before the step, and the value is marked destroyed after it. -/
+theorem drop_only_alive (c : Cfg) (nH nW nK : Nat) (w : World) (h : ReachableR c nH nW nK w) (hm : w.mode = .running) (x : Id) (t : Bool)
+    (hx : Event.drop x t ∈ newEvents w (step c w)) :
+    (w.heap x).boxLive = true ∧ (w.heap x).valLive = true ∧ ((step c w).heap x).valLive = false := by
+  have hv : (true, x) ∈ vEv (newEvents w (step c w)) := mem_vEv_drop.2 ⟨t, hx⟩
+  obtain ⟨hal, f, rest, hs, hp, hev⟩ := vev_alive h hm true x hv
+  have hb : (w.heap x).boxLive = true := by have := congrArg Prod.fst hal; simpa [Obj.lv] using this
+  have hvl : (w.heap x).valLive = true := by have := congrArg Prod.snd hal; simpa [Obj.lv] using this
+  refine ⟨hb, hvl, ?_⟩
+  have hf : f = .dropValue x := by
+    have hvv := step_vEv_running c w hm f rest hs
+    rw [hvv] at hv
+    cases f <;> simp [Frame.vev] at hv
+    rename_i y; rw [hv.2]
+  subst hf
+  have e : step c w = stepFrame c { w with stack := rest } (.dropValue x) := by unfold step; rw [hm]; simp only []; rw [hs]
+  rw [e]; exact dropValue_marks_dead c _ x
+
+/-- **Every value is dropped at most once** in the whole history, and (`no_event_after_drop`) nothing is done to an object
+after its destruction: no second `drop`, no `finalize`. -/
+theorem dropped_at_most_once (c : Cfg) (nH nW nK : Nat) (w : World) (log : List Event) (h : HistR c nH nW nK w log) (x : Id) :
+    (vEv log).count (true, x) ≤ 1 :=
+  (histR_deadOk c nH nW nK w log h x).once
+
+theorem no_event_after_drop (c : Cfg) (nH nW nK : Nat) (w : World) (log : List Event) (h : HistR c nH nW nK w log) (x : Id)
+    (l1 l2 : List (Bool × Id)) (hs : vEv log = l1 ++ (true, x) :: l2) (b : Bool) : (b, x) ∉ l2 :=
+  (histR_deadOk c nH nW nK w log h x).order l1 l2 hs b
+
+/-- A destroyed value stays destroyed: it is never alive again and its identity is never handed out again. -/
+theorem dropped_stays_dropped (c : Cfg) (nH nW nK : Nat) (w : World) (log : List Event) (h : HistR c nH nW nK w log) (x : Id)
+    (hx : (true, x) ∈ vEv log) : (w.heap x).valLive = false ∧ x < w.next :=
+  ⟨((histR_deadOk c nH nW nK w log h x).dead hx).1, ((histR_deadOk c nH nW nK w log h x).dead hx).2.2⟩
+
+/-- **In a panic-free history every allocated box whose value is gone is owned by a frame**: the `Cc::drop` destroying it, the
+`new_cyclic` building it, or the `deallocate_list` loop that already handed it to its destructor — nothing else is ever
+half-alive. -/
+theorem half_dead_is_owned (c : Cfg) (nH nW nK : Nat) (w : World) (h : ReachableR c nH nW nK w) (x : Id)
+    (hb : (w.heap x).boxLive = true) (hv : (w.heap x).valLive = false) : x ∈ ownedDead w.stack :=
+  (reachableR_life c nH nW nK w h).np x (by simp [Obj.lv, hb, hv])
+
+/-- Non-vacuity: a panic-free program that builds a cycle, drops the handles and collects has such a history, and its log
+contains `drop` events. -/
+def exProg : List Op :=
+  [.new 0 { ns := 1, nu := 0, nw := 0, cleaner := false, fin := 0, drp := 0 },
+   .new 1 { ns := 1, nu := 0, nw := 0, cleaner := false, fin := 0, drp := 0 },
+   .setf (.of (.h 0)) (.f 0) (.h 1), .setf (.of (.h 1)) (.f 0) (.h 0), .drop 0, .drop 1, .collect]
+example : cleanProg {} 200 (World.init {} 2 0 0) exProg = true := by decide
+example : ∃ log, HistR {} 2 0 0 (exProg.foldl (execTop {} 200) (World.init {} 2 0 0)) log :=
+  histR_prog {} 2 0 0 200 exProg _ [] .init (by decide)
+example : vEv (exProg.foldl (execTop {} 200) (World.init {} 2 0 0)).events = [(false, 0), (false, 1), (true, 1), (true, 0)] := by decide
 
 end RustCc.C03
